@@ -19,8 +19,12 @@ class History:
 
     def __init__(self, binary, names, tree, lock=None, structured=False, use_cache=None, base=0, maxid=None,
                  pad=0, crlf=False, unicode_prelude=False, bad=(), extra_files=None, tmp_on_other_fs=False,
-                 label=None, config_class="ok", structured_key="explicit", extensions=None, opaque=False, tmp_leftovers=False, pad_mode="spread", tmp_missing=False, env=None, head_style="plain"):
+                 label=None, config_class="ok", structured_key="explicit", extensions=None, opaque=False, tmp_leftovers=False, pad_mode="spread", tmp_missing=False, env=None, head_style="plain", ci_env=False, stdout_to=None,
+                 literal_prelude=False):
         self.binary = binary
+        self.ci_env = ci_env            # environment variables by which CI systems name files a tool may append to
+        self.stdout_to = stdout_to      # None | "full" | "closed-pipe": standard output cannot be written
+        self.literal_prelude = literal_prelude
         self.head_style = head_style
         # the environment of the invocation (spec/Env.tla): where TMPDIR is, how the configuration file and the source
         # directory are spelled, which directory the command is started in
@@ -75,12 +79,18 @@ class History:
         elif self.env.get("tmp") == "nested":
             self.proj.tmp = os.path.join(self.proj.tmp, "a b", "c")
             os.makedirs(self.proj.tmp)
+        if self.ci_env:
+            ci = os.path.join(self.proj.root, "tmp", "ci")
+            os.makedirs(ci, exist_ok=True)
+            with open(os.path.join(ci, "summary.md"), "w") as fh:
+                fh.write("# earlier step\n")
         self.tmp_baseline = len(self.proj.tmp_entries())
         self._apply_config_class()
         self._apply_env()
         self.events.append({"ev": "init", "files": self._abs_tree(self.tree), "lock": self.abs_lock,
                             "maxid": self.maxid, "label": self.label, "present": self._present_list(), "bad": self._bad_list(),
-                            "base": self.base, "must_fail": self.config_class != "ok", "opaque": bool(self.opaque)})
+                            "base": self.base, "must_fail": self.config_class != "ok", "opaque": bool(self.opaque),
+                            "stdout": self.stdout_to or "pipe"})
         self.last_reports = None
 
     def _norm(self, slots):
@@ -210,7 +220,8 @@ class History:
     def _text(self, n):
         slots = [dict(s, ref=s["ref"]) for s in self.tree[n]]
         return bl.render_file(n, slots, self.structured, pad=self.pad, crlf=self.crlf,
-                              prelude_unicode=self.unicode_prelude, pad_mode=self.pad_mode, head_style=self.head_style)
+                              prelude_unicode=self.unicode_prelude, pad_mode=self.pad_mode, head_style=self.head_style,
+                              literal_prelude=self.literal_prelude)
 
     def _materialise(self, n):
         p = os.path.join(self.proj.src, n)
@@ -296,9 +307,17 @@ class History:
                             "must_fail": self.config_class != "ok",
                             "cc": {"ok": "ok", "missing": "missing", "invalid": "invalid", "nomacros": "invalid",
                                    "nosourcedir": "nosourcedir", "sourcedirfile": "sourcedirfile"}.get(self.config_class, "noscope")})
+        extra_env = None
+        if self.ci_env:
+            ci = os.path.join(P.root, "tmp", "ci")
+            extra_env = {"CI": "true", "GITHUB_ACTIONS": "true", "GITHUB_STEP_SUMMARY": os.path.join(ci, "summary.md"),
+                         "GITHUB_OUTPUT": os.path.join(ci, "output.txt"), "GITHUB_ENV": os.path.join(ci, "env.txt"),
+                         "GITHUB_WORKSPACE": P.proj, "RUNNER_TEMP": ci, "XDG_CACHE_HOME": os.path.join(ci, "cache"),
+                         "XDG_STATE_HOME": os.path.join(ci, "state"), "HOME": os.path.join(ci, "home")}
         r = bl.run_breadlog(self.binary, self.config_arg, check=(mode == "check"), tmpdir=self.tmp_arg,
                             roots=(P.proj, os.path.join(P.root, "tmp"), P.tmp), plan=plan, timeout=timeout,
-                            cwd=cwd or self.cwd, logdir=os.path.join(P.root, "tmp"))
+                            cwd=cwd or self.cwd, logdir=os.path.join(P.root, "tmp"), extra_env=extra_env,
+                            stdout_to=self.stdout_to)
         for o in r.events:
             # the interposer reports paths as given (relative ones joined onto the working directory), bytes as Latin-1
             for key in ("path", "path2"):
@@ -597,6 +616,7 @@ def runtrace_eligible(evs):
     init = evs[0]
     starts = [e for e in evs if e.get("ev") == "start"]
     return (init.get("ev") == "init" and (init.get("base", 0) == 0 or init.get("maxid") in RUNTRACE_MAXIDS) and not init.get("opaque")
+            and init.get("stdout", "pipe") == "pipe"       # the model has no action for a failing write to standard output
             and all(e.get("cc", "ok") != "noscope" for e in starts)
             and 1 <= len(init.get("files", [])) <= 5 and sum(len(f) for f in init.get("files", [])) <= 60
             and "present" in init and any(len(f) for f in init["files"]) is not None
